@@ -343,19 +343,23 @@ func genPrev(R *rand.Rand) modelCase {
 		fmt.Fprintf(&sb, " %d %s %s %s", s.off, k, s.xrefstm, s.prev)
 	}
 	isSec := map[int64]bool{}
+	isTable := map[int64]bool{}
 	for _, s := range secs {
 		isSec[int64(s.off)] = true
+		isTable[int64(s.off)] = s.table
 	}
 	run := func() (string, []violation) {
 		tr := &traceReader{r: bytes.NewReader(file)}
 		r, err := pdf.NewReader(tr, int64(size), &pdf.ReaderOptions{ErrorHandling: pdf.ErrorHandlingStop})
 		var viol []violation
-		// the loop iterations: one per read at a section offset.  A classic
-		// table is parsed twice within its iteration (first to learn whether
-		// its trailer has /Prev), so two adjacent reads of one offset count as
-		// one iteration; a longer run or a later return to the offset does not.
+		// the loop iterations.  A stream section is read once per iteration
+		// (or once as an /XRefStm).  A classic table is read twice within its
+		// iteration: a probe to learn its trailer, then - after the /XRefStm,
+		// whose entries take precedence - for real.  So the first read of a
+		// table offset opens an iteration and the next read of the same offset
+		// closes it; a read after that is a new iteration.
 		var iters []int64
-		run := 0
+		open := map[int64]bool{}
 		started := false
 		for _, o := range tr.offs {
 			if o == int64(start0+hdr) {
@@ -364,12 +368,14 @@ func genPrev(R *rand.Rand) modelCase {
 			if !started || !isSec[o] {
 				continue
 			}
-			if len(iters) > 0 && iters[len(iters)-1] == o && run == 1 {
-				run = 2
+			if isTable[o] && open[o] {
+				open[o] = false
 				continue
 			}
+			if isTable[o] {
+				open[o] = true
+			}
 			iters = append(iters, o)
-			run = 1
 		}
 		seen := map[int64]bool{}
 		var trace []string
@@ -979,4 +985,5 @@ var families = []struct {
 	gen  func(R *rand.Rand) modelCase
 }{
 	{"S", genScan}, {"P", genPrev}, {"R", genResolve}, {"W", genPages}, {"T", genTree}, {"O", genOutline}, {"X", genXRef},
+	{"G", genObjStm},
 }
